@@ -475,8 +475,8 @@ pub fn gen_ent(r: &mut Rng, tier: &str, emit: &mut dyn FnMut(String)) {
     let thorough = tier == "thorough";
     let standalone = ["lapic", "ioapic", "gicc", "gicd", "gicmsi", "gicr", "its", "rintc", "imsic", "aplic", "plic", "mem", "gi",
         "rintcaff", "mpd", "loc", "msc", "cache", "isa", "cmo", "mmu", "iommu", "pcierc", "platform", "pciiommu", "mmioiommu",
-        "chbs", "cfmws", "cxims", "rdpas", "aerrp", "aerdev", "aerbr", "ghes", "ghesv2", "notif", "ges", "ged", "ecam",
-        "xsdtentry", "qosctrl", "gas", "wire"];
+        "chbs", "cfmws", "cxims", "rdpas", "aerrp", "aerdev", "aerbr", "ghes", "ghesv2", "notif", "ges", "ged",
+        "qosctrl", "gas", "wire"];   // MCFG and XSDT entries have no public type: they exist only inside their table (tbl stream)
     let per = if thorough { 40000 } else { 1200 };
     for k in standalone {
         for _ in 0..per {
